@@ -166,7 +166,10 @@ static void k_mut(void *o, int a, int pos)
 	} else if (!strcmp(kind, "xattrwriter")) {
 		char key[32], val[16]; sqfs_u32 id;
 		snprintf(key, sizeof key, "user.k%d_%d", a, pos); snprintf(val, sizeof val, "v%d", a * 7 + pos);
-		if (sqfs_xattr_writer_begin(o, 0) == 0) { sqfs_xattr_writer_add_kv(o, key, val, strlen(val)); sqfs_xattr_writer_add_kv(o, "user.common", "x", 1); sqfs_xattr_writer_end(o, &id); }
+		/* every set has a key of its own (so the sets are distinct) and shares one LONG value with all the others: what is stored once and
+		 * referenced afterwards depends on the reference counts the writer keeps per value */
+		if (sqfs_xattr_writer_begin(o, 0) == 0) { sqfs_xattr_writer_add_kv(o, key, val, strlen(val)); sqfs_xattr_writer_add_kv(o, "user.common", "x", 1);
+			sqfs_xattr_writer_add_kv(o, "user.shared", "a long value shared by every set", 32); sqfs_xattr_writer_end(o, &id); }
 	}
 }
 
